@@ -993,7 +993,7 @@ def inproc_sequences(rng, base, tier):
     return seqs
 
 
-def run_inproc_sequence(moddir, tag, steps):
+def run_inproc_sequence(moddir, tag, steps, timeout=None):
     """Runs the steps back to back in one `implrun genseq` process.  Returns one observation per step:
     dict(timed_out, panicked, error, written, panic, detail)."""
     root = os.path.join(moddir, "seq_%s" % tag)
@@ -1005,10 +1005,10 @@ def run_inproc_sequence(moddir, tag, steps):
         write_project(stage, st)
         jobs.append({"live": live, "stage": stage, "config": "gleece.config.json", "mode": st["mode"], "outputs": step_outputs(st)})
     try:
-        results = implrun("genseq", jobs, timeout=SEQ_TIMEOUT)
+        results = implrun("genseq", jobs, timeout=timeout or SEQ_TIMEOUT)
     except subprocess.TimeoutExpired:
         return [{"timed_out": True, "panicked": False, "error": "", "written": False, "panic": "",
-                 "detail": "the process did not finish %d generations within %d s" % (len(steps), SEQ_TIMEOUT)}] * len(steps)
+                 "detail": "the process did not finish %d generations within %d s" % (len(steps), timeout or SEQ_TIMEOUT)}] * len(steps)
     except RuntimeError as e:
         # the whole process died (a panic outside the calling goroutine, a fatal error, os.Exit)
         return [{"timed_out": False, "panicked": True, "error": "", "written": False, "panic": crash_signature(str(e)) or "process died",
@@ -1162,6 +1162,7 @@ def main():
     seqfail = parse_nat_list(out, "seqfail")
     seqbad = parse_nat_list(out, "seqbad")
     reported = 0
+    transient = []    # outcomes that did not show again when the run was repeated: the machine, not gleece
 
     def size(i):
         pr = projects[outcomes[i][0]] if outcomes[i][0] >= 0 else {}
@@ -1177,6 +1178,13 @@ def main():
             continue
         if reported >= 3:
             continue
+        if c in ("crash", "silent-failure"):
+            # the outcome is a fact about gleece only if the same command on the same files shows it again (a process
+            # that the machine killed, or that could not get memory or threads under load, does not)
+            again = [P.run_cli_one(jobs[i]) for _ in range(3)]
+            if not any(classify(r1) == c for r1 in again):
+                transient.append({"class": c, "signature": sig[:300], "reruns": [classify(r1) for r1 in again]})
+                continue
         reported += 1
         if pr.get("files") and c in ("crash", "silent-failure"):
             # shrink: the same declarations in ONE file - keep the other files only if they are needed
@@ -1265,6 +1273,14 @@ def main():
             continue
         if seq_reported >= 2:
             continue
+        # as for the CLI runs: the failure counts only if the same history shows it again (a hang: with three times the time)
+        def failing(ob):
+            return "hang" if ob["timed_out"] else "crash" if ob["panicked"] else None if (ob["error"] or ob["written"]) else "silent-failure"
+        again = [failing(run_inproc_sequence(moddir, "confirm", steps[:bad + 1], timeout=3 * SEQ_TIMEOUT if c == "hang" else None)[-1])
+                 for _ in range(1 if c == "hang" else 3)]
+        if c not in again:
+            transient.append({"class": c, "leg": "one-process history", "signature": sig[:300], "reruns": [x or "fine" for x in again]})
+            continue
         seq_reported += 1
         history, o1 = (steps[:bad + 1], None) if a.replay else shrink_sequence(moddir, steps, bad)
         o = o1 or o
@@ -1284,6 +1300,9 @@ def main():
             cl = "hang" if o["timed_out"] else "crash" if o["panicked"] else "reported-error" if o["error"] else "ok" if o["written"] else "silent-failure"
             seq_classes[cl] = seq_classes.get(cl, 0) + 1
     res.coverage.update({
+        "outcomes_not_reproduced": {"count": len(transient), "what": "a crash / silent failure / hang counts only when the same run shows it "
+                                    "again (3 reruns; a hang: %d CPU seconds of the process tree without finishing, or %d s of wall time)"
+                                    % (P.CPU_HANG_S, P.WALL_HANG_S), "cases": transient[:5]},
         "one_process_histories": {"histories": len(sequences), "runs": sum(len(o) for o in seq_obs), "outcome_classes": seq_classes,
                                   "oracle_failures": len(seqfail),
                                   "first_runs": sorted(set(sq["steps"][0]["label"].split(":")[0] for sq in sequences)),
